@@ -50,6 +50,9 @@ CHECKS = {
  "C17": dict(category="exploration", technique="Hypothesis-generated collections with sequences carrying planted start/stop/in-frame-stop codons, exported as .tbl and re-read by an independent 5-column reader; partial marks, codon_start and pseudo judged by the FrameModel and NCBI codon tables",
    text="Header naming the sequence; per gene the gene / mRNA+CDS (eukaryotic) / CDS (prokaryotic) / RNA records in order, each with exactly the merged source blocks as 1-based inclusive 5'->3' intervals; 5'-partial iff the first codon is not a start codon of the chosen table; 3'-partial iff not (in-frame end on a stop codon); codon_start = start frame + 1 on CDS only; pseudo iff an in-frame stop exists; locus tags unique and increasing by the step; identical text for a repeated run with the same seed (including seed 0).",
    note="One transcript per gene, all coding or all non-coding (writer's documented assumption); ACGT only.", ref="DESIGN.md §5 C17"),
+ "C18": dict(category="exploration", technique="exhaustive enumeration of key subsets x ALL orderings (metamorphic order-independence against a typed-in priority table) plus Hypothesis-generated larger subsets, type-like keys, merge pairs and permuted GenBank feature tables",
+   text="Name/ID choice for all subsets (size<=4 quick, <=5 thorough) of 9 recognised + 9 look-alike keys in every ordering and four letter-case patterns, /note fallback, feature-type collection from *_class / gbkey / *_type keys, merge_qualifiers as key-wise sorted union that commutes and leaves operands alone, and LOCUS_TAG-mode GenBank parsing of the same record under permutations of its feature table.",
+   note="Known finding F17 (rank-0 key treated as unset; pinned by the repository's own test). GenBank leg compares genes (feature collections take name/id from their first record by design).", ref="DESIGN.md §5 C18"),
  "C20": dict(category="exploration", technique="Hypothesis-generated genes / feature collections with engineered ties (shifted copies), strand and coding mixes and primary flags, judged by min/max, set union and an explicit argmax model",
    text="Span, is_coding, feature types, merged transcript/CDS/feature position sets, primary selection (single flag, several flags refused, else longest CDS then longest spliced length then list position), primary sequence/CDS/protein accessors against the chosen child's values, and start-ordered stable iteration of annotation collections.",
    note="Merged blocks are required to be sorted, disjoint and to cover exactly the union; merging of adjacent blocks is not demanded.", ref="DESIGN.md §5 C20"),
